@@ -23,7 +23,7 @@ for a in sys.argv[4:]:
 
 
 def sh(cmd, **kw):
-    return subprocess.run(cmd, shell=True, stdout=subprocess.PIPE, stderr=subprocess.STDOUT, text=True, **kw)
+    return subprocess.run(cmd, shell=True, stdout=subprocess.PIPE, stderr=subprocess.STDOUT, text=True, errors='replace', **kw)
 
 
 sh('git -C /repo worktree remove --force %s' % WT)
@@ -53,7 +53,7 @@ try:
     env = dict(os.environ, VERIF_REPO=WT)
     for tier in (['quick', 'thorough'] if thorough else ['quick']):
         t0 = time.time()
-        r = subprocess.run(['python3', 'check.py', pid, '--tier', tier], cwd=RUNDIR, env=env, stdout=subprocess.PIPE, stderr=subprocess.PIPE, text=True)
+        r = subprocess.run(['python3', 'check.py', pid, '--tier', tier], cwd=RUNDIR, env=env, stdout=subprocess.PIPE, stderr=subprocess.PIPE, text=True, errors='replace')
         vio = [l for l in r.stdout.splitlines() if l.startswith('VIOLATION')]
         meta['ran'].append({'cmd': 'VERIF_REPO=<patched worktree> python3 check.py %s --tier %s' % (pid, tier), 'exit': r.returncode,
                             'violation_lines': vio[:5], 'detail': [l for l in r.stderr.splitlines() if l.startswith('  ->')][:3],
